@@ -194,7 +194,7 @@ theorem Sound.putVerified {cfg : Cfg} {dist : Nat → Nat} {s : St} (h : Sound P
       ⟨hc, h.disk, h.tasks⟩
     simp only
     split
-    · exact h1
+    · exact ⟨fun e he => h1.cache e (mem_erase.mp he).1, h1.disk, h1.tasks⟩
     · rename_i s2 hs2
       have h2 : Sound P s2 := by
         unfold prune at hs2
